@@ -1,10 +1,10 @@
-(* C11 — lemmas about the model of cache/cache_board.go (Model/C11.v); the search skeleton is Base/OddSearch.v. *)
-From Verif Require Import Base.Common Base.OddSearch Model.C11.
-
-(* the by-name / by-class index is sorted for the key: the sign of the comparison never increases along it *)
-Definition sorted_for_name (names : list (list Z)) (q : list Z) : Prop := mono (cmp_name names q) (lenZ names).
-Definition sorted_for_class (titles names : list (list Z)) (cls q : list Z) : Prop :=
-  mono (cmp_class titles names cls q) (lenZ names).
+(* C11 — lemmas about the model of cache/cache_board.go (Model/C11.v); the search skeleton is Base/OddSearch.v.
+   Proofs/C11_order.v: the two sort orders are strict weak orders, a sorted index is monotone for every key
+   ([sorted_for_name] / [sorted_for_class] are defined there); Proofs/C11_auto.v: the scan declaratively and the
+   functional half of auto-completion; Proofs/C11_walk.v: the listing walk. *)
+From Coq Require Import Permutation.
+From Verif Require Import Base.Common Base.Cstr Base.OddSearch Model.C11.
+From Verif Require Export Proofs.C11_order Proofs.C11_auto Proofs.C11_walk.
 
 Lemma lenZ_nonneg {A} (l : list A) : 0 <= lenZ l.
 Proof. unfold lenZ. lia. Qed.
@@ -98,3 +98,205 @@ Proof. exists [[97]; [65]], 1%nat, true. vm_compute. auto. Qed.
 (* the listing of the example table: every visible board once, in order, ceil(5/2) pages *)
 Example ex_walk : page_walk ex_names 2 true = Ok (3, [2; 3; 4; 5; 6]) /\ page_walk ex_names 2 false = Ok (3, [6; 5; 4; 3; 2]).
 Proof. vm_compute. auto. Qed.
+
+(* ================================================================ sorted tables ================================================================ *)
+(* what sort.Sort is assumed to return (and the check verifies on every table): a sorted permutation *)
+Definition sorted_permutation {A} (less : A -> A -> bool) (table sorted : list A) : Prop :=
+  Permutation table sorted /\ sorted_by less sorted = true.
+
+Lemma perm_forallb {A} (f : A -> bool) (l l' : list A) : Permutation l l' -> forallb f l = true -> forallb f l' = true.
+Proof.
+  intros P H. rewrite forallb_forall in *. intros x Hx. apply H. apply (Permutation_in x (Permutation_sym P)). exact Hx.
+Qed.
+
+Lemma in_combine_ex_l {A B} : forall (l : list A) (l' : list B) a, length l = length l' -> In a l -> exists b, In (a, b) (combine l l').
+Proof.
+  induction l as [|x l IH]; intros l' a Hlen Hin; [destruct Hin|]. destruct l' as [|y l']; [discriminate|].
+  destruct Hin as [->|Hin]; [exists y; left; reflexivity|].
+  destruct (IH l' a ltac:(cbn in Hlen; lia) Hin) as (b & Hb). exists b. right. exact Hb.
+Qed.
+Lemma in_combine_ex_r {A B} : forall (l : list A) (l' : list B) b, length l = length l' -> In b l' -> exists a, In (a, b) (combine l l').
+Proof.
+  induction l as [|x l IH]; intros l' b Hlen Hin; [destruct l'; [destruct Hin|discriminate]|]. destruct l' as [|y l']; [destruct Hin|].
+  destruct Hin as [->|Hin]; [exists x; left; reflexivity|].
+  destruct (IH l' b ltac:(cbn in Hlen; lia) Hin) as (a & Ha). exists a. right. exact Ha.
+Qed.
+
+Lemma find_by_name_sorted table names q asc :
+  sorted_permutation less_name table names -> forallb bytes_ok table = true -> bytes_ok q = true ->
+  exists r, find_by_name names q asc = Ok r /\
+    ((1 <= r <= lenZ names /\ cmp_name names q (r - 1) = 0) \/ scan (cmp_name names q) (lenZ names) asc = Ok r).
+Proof.
+  intros [P S] Hb Hq. apply find_by_name_spec. apply sorted_implies_monotone_name; [exact (perm_forallb _ _ _ P Hb)|exact Hq|exact S].
+Qed.
+
+(* a by-class table entry is (Title[:5], name) *)
+Definition entry_ok (e : list Z * list Z) : Prop := bytes_ok (fst e) = true /\ bytes_ok (snd e) = true /\ title_ok (fst e).
+
+Lemma find_by_class_sorted table titles names cls q asc :
+  length titles = length names -> sorted_permutation less_class table (combine titles names) ->
+  Forall entry_ok table -> bytes_ok cls = true -> bytes_ok q = true ->
+  exists r, find_by_class titles names cls q asc = Ok r /\
+    ((1 <= r <= lenZ names /\ cmp_class titles names cls q (r - 1) = 0) \/
+     scan (cmp_class titles names cls q) (lenZ names) asc = Ok r).
+Proof.
+  intros Hlen [P S] He Hcls Hq. apply find_by_class_spec.
+  assert (He' : forall e, In e (combine titles names) -> entry_ok e).
+  { intros e Hin. rewrite Forall_forall in He. apply He. apply (Permutation_in e (Permutation_sym P)). exact Hin. }
+  apply sorted_implies_monotone_class; try assumption.
+  - apply Forall_forall. intros t Ht. destruct (in_combine_ex_l titles names t Hlen Ht) as (s & Hin). exact (proj2 (proj2 (He' _ Hin))).
+  - apply forallb_forall. intros t Ht. destruct (in_combine_ex_l titles names t Hlen Ht) as (s & Hin). exact (proj1 (He' _ Hin)).
+  - apply forallb_forall. intros s Hs. destruct (in_combine_ex_r titles names s Hlen Hs) as (t & Hin). exact (proj1 (proj2 (He' _ Hin))).
+Qed.
+
+(* GetBid on the board table itself: [table] in bid order, [bids] = BSorted[by name] + 1 *)
+Definition bid_index (table : list (list Z)) (bids : list Z) : Prop :=
+  Permutation bids (map (fun i => Z.of_nat i + 1) (seq 0 (length table))).
+Definition names_by (table : list (list Z)) (bids : list Z) : list (list Z) :=
+  map (fun b => nth (Z.to_nat (b - 1)) table []) bids.
+
+Lemma getbid_table table bids q :
+  bid_index table bids -> forallb bytes_ok table = true -> bytes_ok q = true ->
+  sorted_by less_name (names_by table bids) = true ->
+  exists b, get_bid (names_by table bids) bids q = Ok b /\
+    ((1 <= b <= lenZ table /\ cstrcasecmp (boardid q) (boardid (nth (Z.to_nat (b - 1)) table [])) = 0) \/
+     (b = 0 /\ forall j, 0 <= j < lenZ table -> cstrcasecmp (boardid q) (boardid (nth (Z.to_nat j) table [])) <> 0)).
+Proof.
+  intros P Hb Hq Hs. set (f := fun b => nth (Z.to_nat (b - 1)) table []).
+  assert (Hbn : forallb bytes_ok (names_by table bids) = true).
+  { apply forallb_forall. intros x Hx. apply in_map_iff in Hx. destruct Hx as (b & <- & _). apply all_bytes_ok_nth, Hb. }
+  assert (Hlen : lenZ (names_by table bids) = lenZ bids) by (unfold lenZ, names_by; rewrite map_length; reflexivity).
+  assert (Hname : forall idx, 0 <= idx < lenZ bids ->
+            cmp_name (names_by table bids) q idx = cstrcasecmp (boardid q) (boardid (f (nth (Z.to_nat idx) bids 0)))).
+  { intros idx Hidx. unfold cmp_name, name_at, names_by. fold f. unfold lenZ in Hidx.
+    rewrite (nth_indep _ [] (f 0)) by (rewrite map_length; lia). rewrite map_nth. reflexivity. }
+  destruct (getbid _ bids q (sorted_implies_monotone_name _ q Hbn Hq Hs)) as (b & E & H).
+  exists b. split; [exact E|]. rewrite Hlen in H. destruct H as [(idx & Hidx & Hc & Hbv)|(Hb0 & Hall)].
+  - left. rewrite (Hname idx Hidx), <- Hbv in Hc. split; [|exact Hc].
+    assert (Hin : In b bids). { rewrite Hbv. apply nth_In. unfold lenZ in Hidx. lia. }
+    apply (Permutation_in b P) in Hin. apply in_map_iff in Hin. destruct Hin as (i & <- & Hi). apply in_seq in Hi.
+    unfold lenZ. lia.
+  - right. split; [exact Hb0|]. intros j Hj Hc.
+    assert (Hin : In (j + 1) bids).
+    { apply (Permutation_in (j + 1) (Permutation_sym P)). apply in_map_iff. exists (Z.to_nat j). split; [lia|].
+      apply in_seq. unfold lenZ in Hj. lia. }
+    destruct (In_nth bids (j + 1) 0 Hin) as (idx & Hidx & Hnth).
+    apply (Hall (Z.of_nat idx) ltac:(unfold lenZ; lia)). rewrite (Hname (Z.of_nat idx)) by (unfold lenZ; lia).
+    rewrite Nat2Z.id, Hnth. unfold f. replace (j + 1 - 1) with j by lia. exact Hc.
+Qed.
+
+(* ================================================================ non-vacuity ================================================================ *)
+Example ex_table_hyps :
+  forallb bytes_ok ex_names = true /\ sorted_by less_name ex_names = true /\ distinct_names ex_names = true.
+Proof. vm_compute. auto. Qed.
+
+(* a table with two vacated slots still has "names distinct up to case" *)
+Definition ex_names2 : list (list Z) := [[]; []; [65; 98]; [98]].
+Example ex_table2_hyps :
+  forallb bytes_ok ex_names2 = true /\ sorted_by less_name ex_names2 = true /\ distinct_names ex_names2 = true.
+Proof. vm_compute. auto. Qed.
+
+(* the orders are not empty, and both sort keys really decide *)
+Example ex_less : less_name [97] [66] = true /\ less_name [66] [97] = false /\
+                  less_class ([65; 65; 65; 65; 32], [98]) ([66; 66; 66; 66; 32], [97]) = true /\
+                  less_class ([65; 65; 65; 65; 32], [97]) ([65; 65; 65; 65; 32], [66]) = true.
+Proof. vm_compute. auto. Qed.
+
+(* sorted => monotone: every key, not one computed key *)
+Example ex_sorted_any q : bytes_ok q = true -> sorted_for_name ex_names q.
+Proof.
+  intros Hq. destruct ex_table_hyps as (Hb & Hs & _). exact (sorted_implies_monotone_name ex_names q Hb Hq Hs).
+Qed.
+
+(* a by-class index: a vacated slot (all-zero title), then "AAAA " ab, "AAAA " b, "BBBB " a *)
+Definition ex_titles : list (list Z) := [[0; 0; 0; 0; 0]; [65; 65; 65; 65; 32]; [65; 65; 65; 65; 32]; [66; 66; 66; 66; 32]].
+Definition ex_cnames : list (list Z) := [[]; [97; 98]; [98]; [97]].
+Example ex_class_any cls q : bytes_ok cls = true -> bytes_ok q = true -> sorted_for_class ex_titles ex_cnames cls q.
+Proof.
+  intros Hc Hq. apply sorted_implies_monotone_class; try assumption; try reflexivity.
+  unfold ex_titles, title_ok. constructor; [right; reflexivity|]. repeat (constructor; [left; reflexivity|]). constructor.
+Qed.
+Example ex_find_class : find_by_class ex_titles ex_cnames [65; 65; 65; 65] [97; 122] true = Ok 3 /\
+                        find_by_class ex_titles ex_cnames [65; 65; 65; 65] [97; 122] false = Ok 2 /\
+                        find_by_class ex_titles ex_cnames [66; 66; 66; 66] [65] true = Ok 4.
+Proof. vm_compute. auto. Qed.
+
+(* GetBid on a table in bid order: bids 1..4 = b, (vacated), aB, a; by-name order = (vacated), a, aB, b *)
+Definition ex_table : list (list Z) := [[98]; []; [97; 66]; [97]].
+Definition ex_bids : list Z := [2; 4; 3; 1].
+Example ex_bid_index : bid_index ex_table ex_bids /\ sorted_by less_name (names_by ex_table ex_bids) = true /\
+                       get_bid (names_by ex_table ex_bids) ex_bids [65; 98] = Ok 3 /\
+                       get_bid (names_by ex_table ex_bids) ex_bids [99] = Ok 0.
+Proof.
+  split; [|vm_compute; auto]. unfold bid_index, ex_bids, ex_table. cbn [length seq map Z.of_nat Z.add Pos.of_succ_nat Pos.succ Pos.add].
+  apply (perm_trans (l' := [1; 2; 4; 3])).
+  - apply (perm_trans (l' := [2; 1; 4; 3])); [|apply perm_swap].
+    apply perm_skip. apply (perm_trans (l' := [4; 1; 3])); [apply perm_skip, perm_swap|apply perm_swap].
+  - do 2 apply perm_skip. apply perm_swap.
+Qed.
+
+(* prefixes the auto-completion theorem covers *)
+Example ex_prefix_ok : prefix_ok [97] true /\ prefix_ok [97] false /\ prefix_ok [97; 90] true /\ prefix_ok [97; 66] false.
+Proof.
+  unfold prefix_ok, bumpable, kbyte. repeat split; cbn; try lia; repeat constructor; try lia; intros; try discriminate; lia.
+Qed.
+
+Example ex_auto : first_carrier ex_names [97] 3 /\ last_carrier ex_names [97] 5 /\
+                  first_carrier ex_names [122] (-1) /\ last_carrier ex_names [97; 66] 5.
+Proof.
+  destruct ex_table_hyps as (Hb & Hs & Hd).
+  assert (P : forall kw asc, (1 <= length kw <= 12)%nat -> Forall kbyte kw -> bumpable (last kw 0) -> prefix_ok kw asc).
+  { intros kw asc H1 H2 H3. split; [exact H1|]. split; [exact H2|]. intros _. exact H3. }
+  repeat split.
+  - destruct (autocomplete_spec ex_names [97] true Hb Hs Hd) as (r & E & H).
+    { apply P; [cbn; lia|repeat constructor; unfold kbyte; lia|unfold bumpable; cbn; lia]. }
+    vm_compute in E. injection E as <-. exact H.
+  - destruct (autocomplete_spec ex_names [97] false Hb Hs Hd) as (r & E & H).
+    { apply P; [cbn; lia|repeat constructor; unfold kbyte; lia|unfold bumpable; cbn; lia]. }
+    vm_compute in E. injection E as <-. exact H.
+  - destruct (autocomplete_spec ex_names [122] true Hb Hs Hd) as (r & E & H).
+    { apply P; [cbn; lia|repeat constructor; unfold kbyte; lia|unfold bumpable; cbn; lia]. }
+    vm_compute in E. injection E as <-. exact H.
+  - destruct (autocomplete_spec ex_names [97; 66] false Hb Hs Hd) as (r & E & H).
+    { apply P; [cbn; lia|repeat constructor; unfold kbyte; lia|unfold bumpable; cbn; lia]. }
+    vm_compute in E. injection E as <-. exact H.
+Qed.
+
+(* the walk with a visibility predicate that hides entry 4 ("aB"), and over the table with two vacated slots *)
+Example ex_walk_vis :
+  page_walk_g (fun i => visible ex_names i && negb (i =? 3)) ex_names 2 true = Ok (2, [2; 3; 5; 6]) /\
+  page_walk ex_names2 1 false = Ok (2, [4; 3]) /\ page_walk ex_names2 5 true = Ok (1, [3; 4]).
+Proof. vm_compute. auto. Qed.
+
+(* ---- two more refutations: the other last bytes the descending search cannot increment ---- *)
+(* '@' + 1 = 'A' folds to 'a', which is not the successor of '@': boards whose next byte is in '[' .. '`' sort between
+   the carriers and the probe; with two of them the three probes run out. Sorted ["a@"; "a_a"; "a_b"; "aa"], prefix "a@" *)
+Lemma autocomplete_refuted_desc_at_sign :
+  exists names kw, forallb bytes_ok names = true /\ sorted_by less_name names = true /\ distinct_names names = true /\
+    last kw 0 = 64 /\ cmp_prefix names kw 0 = 0 /\ autocomplete names kw false = Ok (-1).
+Proof. exists [[97; 64]; [97; 95; 97]; [97; 95; 98]; [97; 97]], [97; 64]. vm_compute. auto 10. Qed.
+
+(* 0xFF + 1 wraps to NUL, which ends the key: the probe lands on the first board of the shorter prefix.
+   Sorted ["a"; "ab"; "a\xff"], prefix "a\xff" *)
+Lemma autocomplete_refuted_desc_0xff :
+  exists names kw, forallb bytes_ok names = true /\ sorted_by less_name names = true /\ distinct_names names = true /\
+    last kw 0 = 255 /\ cmp_prefix names kw 2 = 0 /\ autocomplete names kw false = Ok (-1).
+Proof. exists [[97]; [97; 98]; [97; 255]], [97; 255]. vm_compute. auto 10. Qed.
+
+(* ================================================================ totality on sorted tables ================================================================ *)
+Lemma bump_last_bytes_ok kw : bytes_ok kw = true -> bytes_ok (bump_last kw) = true.
+Proof.
+  intros H. unfold bump_last, bytes_ok in *. rewrite forallb_app. apply andb_true_intro. split.
+  - rewrite forallb_forall in *. intros x Hx. apply H. apply ListX.In_firstn in Hx. exact Hx.
+  - cbn [forallb]. rewrite andb_true_r. unfold is_byte, wrapu8.
+    pose proof (Z.mod_pos_bound (nth (length kw - 1) kw 0 + 1) 256 ltac:(lia)) as Hm.
+    destruct (Z.leb_spec 0 ((nth (length kw - 1) kw 0 + 1) mod 256)), (Z.ltb_spec ((nth (length kw - 1) kw 0 + 1) mod 256) 256); cbn; try reflexivity; lia.
+Qed.
+
+Lemma autocomplete_total_sorted names kw asc :
+  forallb bytes_ok names = true -> bytes_ok kw = true -> sorted_by less_name names = true ->
+  exists r, autocomplete names kw asc = Ok r.
+Proof.
+  intros Hb Hk Hs. apply autocomplete_total. apply sorted_implies_monotone_name; [exact Hb| |exact Hs].
+  destruct asc; [exact Hk|apply bump_last_bytes_ok, Hk].
+Qed.
